@@ -14,7 +14,7 @@ from .core import Ctx, RULES
 
 def load_rules():
     from . import rules_g  # noqa: F401
-    for mod in ("rules_e", "rules_p", "rules_det", "rules_l", "rules_d", "rules_abs", "rules_text", "rules_expr", "rules_tmpl", "rules_more", "rules_bank"):
+    for mod in ("rules_e", "rules_p", "rules_det", "rules_l", "rules_d", "rules_abs", "rules_text", "rules_expr", "rules_tmpl", "rules_more", "rules_bank", "rules_more2"):
         try:
             __import__(f"sa.{mod}")
         except ModuleNotFoundError as e:
@@ -66,12 +66,15 @@ def main(argv=None) -> int:
             if pid not in PROPS:
                 print(f"ANALYSIS-ERROR driver {pid}: unknown property")
                 return 2
-            st = core.check_property(ctx, pid, PROPS[pid], seed=seed)
+            extra = None
+            st2 = 0
             if args.tier == "thorough":
                 from .selftest import run_selftest
 
-                st2 = run_selftest(ctx, pid)
-                st = max(st, st2) if st != 1 else st
+                st2, extra = run_selftest(ctx, pid)
+            st = core.check_property(ctx, pid, PROPS[pid], seed=seed, extra=extra)
+            if st != 1 and st2:
+                st = 2
             worst = max(worst, st) if worst != 1 else 1
             if st == 1:
                 worst = 1
